@@ -129,6 +129,7 @@ fn body(run: &Run, replay: Option<&Value>) {
         ternary_over(run, &thin);
     }
     small_types(run);
+    conversions(run);
     unary32(run);
     ot_round(run);
     int24(run, &w);
@@ -142,6 +143,7 @@ fn replay_case(run: &Run, case: &Value) {
     match op {
         "mul" | "div" | "be_ord" | "cmp" | "cmp16" | "cmp24" | "cmp26" | "cmp_tag" | "cmp_version" | "cmp_offset32" | "cmp_glyphid" | "cmp_ldt" => check_binary(run, a, b, &mut None),
         "mul_div" | "mul_div_26_6" => check_ternary(run, a, b, c, &mut None),
+        "conv16" => conversions(run),
         "unary32" => {
             let mut l = Local { all: HashSet::new(), nontrivial: HashSet::new() };
             check_unary32(run, a, &mut l);
@@ -509,6 +511,132 @@ macro_rules! scalar_rt16 {
     }};
 }
 
+/// value-level conversions between the scalar types (every 16-bit value; tags over a byte alphabet)
+fn conversions(run: &Run) {
+    let mut bad = |name: &str, v: u32, what: String| {
+        run.violation(&format!("{name} v={v:#x}"), &what, json!({"op":"conv16","a":v,"fn":name}));
+    };
+    for v in 0..=u16::MAX {
+        let v32 = v as u32;
+        let g16 = GlyphId16::from(v);
+        let g = GlyphId::from(g16);
+        if g16.to_u16() != v || usize::from(g16) != v as usize || u32::from(g16) != v32 || g16.to_u32() != v32 || g16 != GlyphId16::new(v) {
+            bad("GlyphId16 from/into", v32, "value not kept".into());
+        }
+        if g.to_u32() != v32 || GlyphId::from(v) != g || GlyphId::new(v32) != g {
+            bad("GlyphId from GlyphId16/u16", v32, "value not kept".into());
+        }
+        match GlyphId16::try_from(g) {
+            Ok(back) if back == g16 => {}
+            other => bad("GlyphId16::try_from(GlyphId)", v32, format!("got {other:?}")),
+        }
+        // cross-type equality and ordering against neighbours and the first values past 16 bits
+        for x in [v32.wrapping_sub(1), v32, v32 + 1, 0x1_0000 + v32, u32::MAX - v32] {
+            let gx = GlyphId::new(x);
+            let want = x.cmp(&v32);
+            if (gx == g16) != (x == v32)
+                || (g16 == gx) != (x == v32)
+                || gx.partial_cmp(&g16) != Some(want)
+                || g16.partial_cmp(&gx) != Some(want.reverse())
+            {
+                bad("GlyphId <-> GlyphId16 eq/ord", v32, format!("against {x:#x}"));
+            }
+        }
+        let s = v as i16;
+        if FWord::from(s).to_i16() != s || i16::from(FWord::new(s)) != s || FWord::new(s).to_fixed() != Fixed::from_i32(s as i32) {
+            bad("FWord from/into/to_fixed", v32, "value not kept".into());
+        }
+        if UfWord::from(v).to_u16() != v || u16::from(UfWord::new(v)) != v || UfWord::new(v).to_fixed() != Fixed::from_i32(v as i32) {
+            bad("UfWord from/into/to_fixed", v32, "value not kept".into());
+        }
+        if NameId::from(v).to_u16() != v || NameId::new(v).is_reserved() != (v <= 255) {
+            bad("NameId from/is_reserved", v32, "wrong".into());
+        }
+        for rhs in [0u16, 1, 255, 0x7FFF_u16.wrapping_sub(v), 0x8000_u16.wrapping_sub(v), 0xFFFF - v, 0xFFFF] {
+            let want = (v32 + rhs as u32 <= NameId::LAST_ALLOWED_NAME_ID.to_u16() as u32).then(|| v + rhs);
+            if NameId::new(v).checked_add(rhs).map(|n| n.to_u16()) != want {
+                bad("NameId::checked_add", v32, format!("rhs {rhs}: want {want:?}"));
+            }
+        }
+        let o = Offset16::new(v);
+        let n = <Nullable<Offset16> as Scalar>::from_raw(v.to_be_bytes());
+        if o.is_null() != (v == 0) || (o == v32) != true || (o == v32 + 1) || n.is_null() != (v == 0) || !(n == v32) || *n.offset() != o || n.to_raw() != v.to_be_bytes() {
+            bad("Offset16 / Nullable<Offset16>", v32, "null test or u32 comparison wrong".into());
+        }
+        let o24 = Offset24::new(Uint24::new(v32 << 8 | 0x5A));
+        if o24.to_u32() != (v32 << 8 | 0x5A) || o24.is_null() || !(o24 == (v32 << 8 | 0x5A)) || u32::from(Uint24::new(v32 << 8)) != v32 << 8 || usize::from(Uint24::new(v32)) != v as usize {
+            bad("Offset24/Uint24 into", v32, "value not kept".into());
+        }
+        if i32::from(Int24::new(s as i32 * 256)) != s as i32 * 256 {
+            bad("Int24 into i32", v32, "value not kept".into());
+        }
+        for minor in 0..=9u16 {
+            let ver = Version16Dot16::new(v, minor);
+            if ver.to_major_minor() != (v, minor) || ver.to_be_bytes() != ((v32 << 16) | ((minor as u32) << 12)).to_be_bytes() {
+                bad("Version16Dot16::new", v32, format!("minor {minor}"));
+            }
+        }
+        let mm = MajorMinor::new(v, !v);
+        if mm.to_be_bytes() != ((v32 << 16) | (!v) as u32).to_be_bytes() || <MajorMinor as Scalar>::from_raw(mm.to_raw()) != mm {
+            bad("MajorMinor", v32, "bytes wrong".into());
+        }
+    }
+    run.evals(65536 * 30);
+    run.trans(65536 * 60);
+    run.count("conversions16_values", 65536);
+    // tags: every string of 0..=5 bytes over a boundary byte alphabet, against the documented rules
+    let alpha = [0x00u8, 0x1F, 0x20, 0x21, 0x41, 0x7A, 0x7E, 0x7F, 0xFF];
+    let mut n = 0u64;
+    for len in 0..=5usize {
+        let total = alpha.len().pow(len as u32);
+        for mut k in 0..total {
+            let mut buf = Vec::with_capacity(len);
+            for _ in 0..len {
+                buf.push(alpha[k % alpha.len()]);
+                k /= alpha.len();
+            }
+            n += 1;
+            let mut valid = (1..=4).contains(&len) && buf[0] != 0x20;
+            let mut seen_space = false;
+            for &b in &buf {
+                if !(0x20..=0x7E).contains(&b) || (b != 0x20 && seen_space) {
+                    valid = false;
+                }
+                seen_space |= b == 0x20;
+            }
+            let mut padded = [0x20u8; 4];
+            for (i, b) in buf.iter().take(4).enumerate() {
+                padded[i] = *b;
+            }
+            let got = Tag::new_checked(&buf);
+            if got.is_ok() != valid || (valid && got.as_ref().map(|t| t.to_be_bytes()) != Ok(padded)) {
+                bad("Tag::new_checked", n as u32, format!("{buf:02x?}: got {got:?}, valid per documented rules = {valid}"));
+            }
+            if let Ok(text) = std::str::from_utf8(&buf) {
+                let parsed: Result<Tag, _> = text.parse();
+                if parsed.is_ok() != valid || (valid && parsed.map(|t| t.to_be_bytes()).ok() != Some(padded)) {
+                    bad("Tag::from_str", n as u32, format!("{buf:02x?}"));
+                }
+            }
+            if len == 4 {
+                let arr: [u8; 4] = [buf[0], buf[1], buf[2], buf[3]];
+                let t = Tag::new(&arr);
+                if t != Tag::from_be_bytes(arr) || t.into_bytes() != arr || !(t == arr) || !(t == &arr[..]) || (t == &arr[..3]) || t.validate().is_ok() != valid {
+                    bad("Tag new/eq/validate", n as u32, format!("{arr:02x?}: validate {:?}, valid per documented rules = {valid}", t.validate()));
+                }
+                if let Ok(text) = std::str::from_utf8(&arr) {
+                    if !(t == *text) || !(t == text) {
+                        bad("Tag == str", n as u32, format!("{arr:02x?}"));
+                    }
+                }
+            }
+        }
+    }
+    run.evals(n);
+    run.count("tag_strings", n);
+    run.sample(json!({"op":"conv16","a":65535,"fn":"GlyphId16::try_from(GlyphId)"}));
+}
+
 fn small_types(run: &Run) {
     scalar_rt16!(run, u16, "u16", |r: u16| r, |v: u16| v);
     scalar_rt16!(run, i16, "i16", |r: u16| r as i16, |v: i16| v as u16);
@@ -706,8 +834,19 @@ fn check_unary32(run: &Run, raw: i32, l: &mut Local) -> bool {
         fail("u32/i32 raw", "bytes do not round trip".into());
     }
     let gid = GlyphId::new(raw as u32);
-    if gid.to_u32() != raw as u32 {
+    if gid.to_u32() != raw as u32 || u32::from(gid) != raw as u32 || GlyphId::from(raw as u32) != gid {
         fail("GlyphId", "round trip".into());
+    }
+    // narrowing to a 16-bit glyph id succeeds exactly for 0..=0xFFFF and keeps the value
+    if GlyphId16::try_from(gid).ok().map(|g| g.to_u16()) != u16::try_from(raw as u32).ok() {
+        fail("GlyphId16::try_from(GlyphId)", format!("got {:?}", GlyphId16::try_from(gid).ok()));
+    }
+    // 24-bit narrowing: checked_new / try_from succeed exactly on the representable range
+    if Uint24::checked_new(raw as u32).map(|u| u.to_u32()) != ((raw as u32) <= 0xFF_FFFF).then_some(raw as u32)
+        || Uint24::try_from(raw as u32 as usize).ok().map(|u| u.to_u32()) != ((raw as u32) <= 0xFF_FFFF).then_some(raw as u32)
+        || Int24::checked_new(raw).map(|i| i.to_i32()) != (-0x80_0000..=0x7F_FFFF).contains(&raw).then_some(raw)
+    {
+        fail("24-bit checked_new/try_from", "wrong range or value".into());
     }
     // float conversions: lossless both ways and exact value
     let x = f.to_f64();
